@@ -44,6 +44,8 @@ def cs(v):
         if np.isnat(v):
             return ('td64', unit, NAT)
         return ('td64', unit, int(v.astype(np.int64)))
+    if isinstance(v, datetime.timedelta):
+        return ('timedelta', (v.days, v.seconds, v.microseconds))
     if isinstance(v, datetime.datetime):
         return ('datetime', v.isoformat())
     if isinstance(v, datetime.date):
@@ -134,6 +136,13 @@ def leq(a, b):
     if ka in ('date', 'datetime') and kb == 'dt64' and b[2] != NAT:
         try:
             return bool(np.datetime64(a[1]) == np.array(b[2], dtype=f'M8[{b[1]}]'))
+        except Exception:
+            return False
+    if ka == 'td64' and kb == 'timedelta':
+        a, b, ka, kb = b, a, kb, ka
+    if ka == 'timedelta' and kb == 'td64' and b[2] != NAT:
+        try:
+            return bool(datetime.timedelta(days=a[1][0], seconds=a[1][1], microseconds=a[1][2]) == np.array(b[2], dtype=f'm8[{b[1]}]')[()])
         except Exception:
             return False
     if ka == kb == 'tuple' and len(a[1]) == len(b[1]):
